@@ -27,6 +27,7 @@ import EaselModel.Msa.LemmasRbbFew
 import EaselModel.Msa.LemmasRfCons
 import EaselModel.Msa.LemmasFull2
 import EaselModel.Msa.LemmasFlushIP
+import EaselModel.Msa.LemmasWf
 /-! # C15 — alignment transformations keep the alignment well formed and the residues intact; WUSS round trips
 
 Property theorems only; proofs are glue on the lemmas of `EaselModel/Msa/Lemmas*.lean`.
@@ -372,6 +373,34 @@ theorem flushLeftInserts_inplace (m : Msa) (wf : m.WF) :
     ∀ (a : Abc) (rf row : Bytes), rf.length = m.alen → row.length = m.alen →
       flushIP a rf m.alen (m.alen + 1) 0 0 row = flushRow a rf m.alen row :=
   ⟨flushLeftInsertsIP_eq m wf, fun a rf row h1 h2 => flushIP_is_flushRow a rf row m.alen h1 h2⟩
+
+/-- "... all yield a well-formed alignment", for the three transformations whose well-formedness was not yet stated:
+    `esl_msa_FlushLeftInserts` (rows keep their length, every cell is an old cell or the gap code, never the sentinel),
+    `esl_msa_MarkFragments_old` (cells are old cells or the missing-data symbol), `esl_msa_Digitize` on valid text (codes
+    below `Kp`), `esl_msa_Textize` (every symbol of the alphabet is a non-NUL character) -/
+theorem transformed_wellformed (m : Msa) (wf : m.WF) :
+    (∀ (a : Abc) (rf : Bytes), m.rf = some rf → m.abc = some a → m.isDigital = true → a.xIsGap a.xGap = true → a.K < 255 →
+      (flushLeftInserts m).st = .ok ∧ (flushLeftInserts m).msa.WF) ∧
+    (∀ isFrag, (fragSyms m).2 ≠ m.rowTerm → (markFragmentsOld m isFrag).WF) ∧
+    (∀ a : Abc, m.isDigital = false → (m.rows.all fun r => r.all a.cIsValid) = true → a.Kp ≤ 255 →
+      (digitize a m).st = .ok ∧ (digitize a m).msa.WF) ∧
+    (∀ a : Abc, m.isDigital = true → m.abc = some a → m.codesOk a → (∀ x, x < a.Kp → a.sym.getD x 0 ≠ 0) →
+      (textize m).st = .ok ∧ (textize m).msa.WF) := by
+  refine ⟨fun a rf hrf habc hd hg hK => ?_, fun isFrag h => markFragmentsOld_wf m isFrag wf h,
+    fun a hd hv hK => digitize_wf a m wf hd hv hK, fun a hd habc hc hs => textize_wf a m wf hd habc hc hs⟩
+  have e : flushLeftInserts m = { msa := { m with rows := m.rows.map (flushRow a rf m.alen) }, st := .ok } := by
+    simp [flushLeftInserts, hrf, habc]
+  rw [e]
+  exact ⟨rfl, flushLeftInserts_wf m a rf wf hrf hd hg hK⟩
+
+/-- the side conditions of `transformed_wellformed` hold for the three generated alphabets and for text mode -/
+theorem generated_wf_side_conditions :
+    (Gen.rnaAbc.K < 255 ∧ Gen.rnaAbc.Kp ≤ 255) ∧ (Gen.dnaAbc.K < 255 ∧ Gen.dnaAbc.Kp ≤ 255) ∧
+    (Gen.aminoAbc.K < 255 ∧ Gen.aminoAbc.Kp ≤ 255) ∧
+    Gen.rnaAbc.xMissing ≠ dsqSentinel ∧ Gen.dnaAbc.xMissing ≠ dsqSentinel ∧ Gen.aminoAbc.xMissing ≠ dsqSentinel ∧
+    (0x7e : UInt8) ≠ 0 ∧
+    (∀ x, x < Gen.rnaAbc.Kp → Gen.rnaAbc.sym.getD x 0 ≠ 0) ∧ (∀ x, x < Gen.dnaAbc.Kp → Gen.dnaAbc.sym.getD x 0 ≠ 0) ∧
+    (∀ x, x < Gen.aminoAbc.Kp → Gen.aminoAbc.sym.getD x 0 ≠ 0) := by decide
 
 /-- `esl_msa_MarkFragments(msa, fragthresh, &fragassign)` does not touch the alignment (it is a function of it) and flags
     sequence `i` iff the span from its first to its last residue is shorter than `minspan = ceil(fragthresh * alen)`
